@@ -91,6 +91,15 @@ theorem j_path : PathOk (J o c req) x := by
     subst hp
   all_goals first | exact j_file hfo hx hs hs' | exact j_dir hfo hx hs hs' hd
 end path
+/-- renaming the output file of a recorded section to its backup name -/
+theorem j_rename {o : Options} {c : Bytes} {req : List (Bytes × Bytes)} {fo : Bytes × Bytes} (hfo : fo ∈ req) :
+    RenameOk (J o c req) fo.2 (backupName o fo.2) := by
+  refine ⟨fun s hs => j_op fun s' hs' => Or.inr ?_⟩
+  intro p hp
+  simp only [FsOp.paths, List.mem_cons, List.not_mem_nil, or_false] at hp
+  rcases hp with rfl | rfl
+  · exact j_file (x := fo.2) hfo (by simp) hs hs'
+  · exact j_file (x := backupName o fo.2) hfo (by simp) hs hs'
 theorem j_sec (o : Options) (c a b : Bytes) : SecOk (J o c [(a, b)]) o a b := by
   have hm : (a, b) ∈ [(a, b)] := List.mem_singleton.2 rfl
   refine ⟨j_path hm (by simp), j_path hm (by simp), j_path hm (by simp), j_path hm (by simp), ⟨fun s hs => j_op fun s' hs' => Or.inr ?_⟩,
@@ -150,7 +159,7 @@ theorem k_processPatchM (o : Options) :
   refine ⟨J o c s0.sections, j_framed o c _, ⟨hs0.1, hs0.2.1, hs0.2.2.1, hs0.2.2.2.1, fun _ h => h⟩, ?_, ?_, ?_⟩
   · intro w hw
     obtain ⟨fo, hfo, h⟩ := hs0.2.2.1 w hw
-    rw [h]; exact j_path hfo (by simp)
+    rw [h]; exact ⟨j_path hfo (by simp), j_path hfo (by simp), j_rename hfo⟩
   · intro p hp
     obtain ⟨fo, hfo, h⟩ := hs0.2.2.2.1 p hp
     rw [h]; exact j_path hfo (by simp)
